@@ -1944,11 +1944,19 @@ def check_crosstab_keys(prog, rep, m, entry):
             # enumerated: a parameter that is not the caller's selection (the vector of all categories)
             ok = isinstance(lp.iter, ast.Call) and norm(lp.iter.func) == 'enumerate' and isinstance(lp.iter.args[0], ast.Name) and \
                 lp.iter.args[0].id in g.params and lp.iter.args[0].id not in CI3 and isinstance(lp.target, ast.Tuple)
+            catv = norm(lp.target.elts[1]) if ok else None
+            zp = _zip_pairing(lp, g, CI3)
+            if not ok and zp is not None:
+                # `for cat, layer in zip(ALL categories, values)`: the same pairing without an index - the layer variable is
+                # the layer of its category by construction, provided the body takes no other layer of the values
+                ok, catv = (zp[0] is not None), zp[0]
+            elif not ok and not (isinstance(lp.iter, ast.Call) and norm(lp.iter.func) in ('enumerate', 'zip') and
+                                 any(isinstance(a_, ast.Name) and a_.id in CI3 for a_ in lp.iter.args)):
+                ok = None       # neither of the two pairings, and not positively the selection that is enumerated: not decided
             sel = False
             if ok:
                 # every path that stores a result has passed the membership test of this category in cat_ids
                 from .astutil import body_paths
-                catv = norm(lp.target.elts[1])
 
                 def member(t_, taken):
                     if isinstance(t_, ast.UnaryOp) and isinstance(t_.op, ast.Not):
@@ -1965,7 +1973,7 @@ def check_crosstab_keys(prog, rep, m, entry):
                 except ValueError:
                     sel = False
             n += 1
-            rep.add('X-key', g, entry, 'for %s in %s' % (norm(lp.target), norm(lp.iter)), lp.lineno, ok and sel,
+            rep.add('X-key', g, entry, 'for %s in %s' % (norm(lp.target), norm(lp.iter)), lp.lineno, None if ok is None else (ok and sel),
                     'layer j of the 3-D values belongs to unique_cats[j]: the layer index must come from enumerating '
                     'ALL categories (unique_cats), selecting by membership in cat_ids - enumerating the selection '
                     'pairs a category with the wrong layer')
@@ -1974,8 +1982,22 @@ def check_crosstab_keys(prog, rep, m, entry):
             if short(c) == 'append':
                 # stored under the category of the enclosing loop: table[<category variable>].append(stats_func(..))
                 lp_ = next((x for x in cat_loops if any(y is c for y in ast.walk(x))), None)
-                okk = isinstance(c.args[0], ast.Call) and norm(c.args[0].func) == g.params[-1] and lp_ is not None and \
-                    isinstance(c.func.value, ast.Subscript) and norm(c.func.value.slice) == norm(lp_.target.elts[1])
+                zp_ = _zip_pairing(lp_, g, CI3) if lp_ is not None else None
+                catv_ = zp_[0] if zp_ is not None else (norm(lp_.target.elts[1]) if lp_ is not None else None)
+                okk = isinstance(c.args[0], ast.Call) and norm(c.args[0].func) == g.params[-1] and catv_ is not None and \
+                    isinstance(c.func.value, ast.Subscript) and norm(c.func.value.slice) == catv_
+                if okk and zp_ is not None:
+                    # the aggregate's argument is derived from the loop's layer variable
+                    env_ = straightline_env([x for x in ast.walk(lp_) if isinstance(x, ast.Assign)])
+                    seen_, todo_ = set(), [c.args[0]]
+                    while todo_:
+                        e_ = todo_.pop()
+                        for x in ast.walk(e_):
+                            if isinstance(x, ast.Name) and x.id not in seen_:
+                                seen_.add(x.id)
+                                if x.id in env_:
+                                    todo_.append(env_[x.id])
+                    okk = zp_[1] in seen_
                 n += 1
                 rep.add('X-key', g, entry, norm(c), c.lineno, okk,
                         'each 3-D entry is the chosen aggregate of that layer\'s valid cells in the zone')
@@ -2062,6 +2084,31 @@ def check_crosstab_keys(prog, rep, m, entry):
                 'the 3-D aggregate must be looked up by the caller\'s `agg` in the default statistics table and handed to the '
                 'per-zone 3-D routine')
     return n
+
+
+def _zip_pairing(lp, g, CI3):
+    """`for a, b in zip(X, Y)` over the 3-D routine's values (its first parameter) and a parameter that is not the caller's
+    selection: (category variable, layer variable); the category variable is None when the body takes a layer of the
+    values by subscript as well (then the pairing is not by construction).  None when the loop is not of this form."""
+    if not (isinstance(lp.iter, ast.Call) and norm(lp.iter.func) == 'zip' and len(lp.iter.args) == 2 and not lp.iter.keywords and
+            all(isinstance(a_, ast.Name) for a_ in lp.iter.args) and isinstance(lp.target, ast.Tuple) and len(lp.target.elts) == 2 and
+            all(isinstance(t_, ast.Name) for t_ in lp.target.elts)):
+        return None
+    names = [a_.id for a_ in lp.iter.args]
+    vals = g.params[0]
+    if names.count(vals) != 1:
+        return None
+    k = names.index(vals)
+    other = names[1 - k]
+    if other not in g.params or other in CI3:
+        return None
+    stored = any(isinstance(x, ast.Name) and isinstance(x.ctx, ast.Store) and x.id in (vals, other) for x in ast.walk(g.node))
+    if stored:
+        return None
+    layer, cat = lp.target.elts[k].id, lp.target.elts[1 - k].id
+    rebound = any(isinstance(x, ast.Name) and isinstance(x.ctx, ast.Store) and x.id in (layer, cat) for s_ in lp.body for x in ast.walk(s_))
+    subs = any(isinstance(x, ast.Subscript) and isinstance(x.value, ast.Name) and x.value.id == vals for s_ in lp.body for x in ast.walk(s_))
+    return (None if (subs or rebound) else cat), layer
 
 
 def check_flatten_order(prog, rep, fs, entry_of):
